@@ -150,6 +150,7 @@ type Profile struct {
 	TryRaises   bool // C12: also request raises that the engine did not offer
 	NoBBGames   bool // also generate button-blind / ante-only games (no seat holds "bb", SB = BB = 0)
 	noPrelude   bool
+	NoQueries   bool // no read-only calls between operations
 	SmallStacks bool // C05/C12: tight stacks so that bounds bite
 }
 
@@ -168,6 +169,9 @@ func GenCfg(rt *rapid.T, pr Profile) *Cfg {
 		c.N = maxN
 	default:
 		c.N = rapid.IntRange(2, maxN).Draw(rt, "n")
+	}
+	if pr.MaxN == 0 && rapid.IntRange(0, 29).Draw(rt, "crowd") == 0 {
+		c.N = rapid.IntRange(11, 22).Draw(rt, "nCrowd") // "2 to 9+ seats": as many as the deck can serve
 	}
 	c.Hole, c.Req = 2, 0
 	switch rapid.IntRange(0, 19).Draw(rt, "variant") {
